@@ -1,6 +1,7 @@
 import EinxModel.Props.C13
 import EinxModel.Props.C04
 import EinxModel.Proofs.ExecCall
+import EinxModel.Proofs.ExecSemFactory
 /-!
 # C13 with C04 — the named hypothesis `Exec` is discharged for compiled graphs
 
@@ -146,6 +147,79 @@ theorem factory_called_once_compiled (cfg : UCfg) (fc : FCfg) (g : Compile.Graph
     have := congrArg (List.map some) hkw
     simpa [List.map_map, Function.comp_def] using this
 
+/-- **factory_call_value_compiled** (value level): for a compiled graph accepted by the checker, under the two further decidable
+premises `rootStable fg` (the fuel of `Factory.root` suffices) and `castsPlain g` (a `Cast` of a tracer yields a tracer), both
+evaluated by the harness on every captured graph: for every factory position `p` (graph input `t`), the event trace of the
+emitted program contains **exactly one call event whose function term is the object passed as input `t`** (`inAtom t`) — with one
+positional argument and exactly the keyword names the model passes.  No other call event of the program, whatever node produced
+it, calls that object. -/
+theorem factory_call_value_compiled (cfg : UCfg) (fc : FCfg) (g : Compile.Graph) (aux : List TAux) (fg : Factory.Graph)
+    (comp : Compiled) (d : Descr) (hwf : g.WF = true) (hsup : Supported g = true) (hfg : toFactory g aux = some fg)
+    (hstable : rootStable fg = true) (hplain : castsPlain g = true)
+    (hc : compile cfg fc g = .ok comp) (hok : factoryOK fg d = true)
+    (p : Nat) (ad : ArgD) (sig : Sig) (t : Nat)
+    (hd : d.args[p]? = some ad) (hf : ad.factory = some sig) (ht : fg.inputs[p]? = some t) :
+    ∃ as ks,
+      (execBlock { env := unbound } comp.st.program).trace.filter (trackedCall (isInAtom t)) =
+        [.call (E.mk .call (inAtom t :: as ++ ks))] ∧
+      as.length = 1 ∧ ks.map kwName = (passed d.ctx ad.argIndex sig).map (fun kv => some kv.1) := by
+  have hfwf : Factory.wf fg = true := by
+    unfold factoryOK at hok
+    simp only [Bool.and_eq_true] at hok
+    exact hok.1.1
+  obtain ⟨i, fn, args, kwargs, deps, out, hfilt, hnode, hargs, hkw⟩ :=
+    checker_sound_compiled cfg fc g aux fg comp d hwf hsup hfg hc hok p ad sig t hd hf ht
+  obtain ⟨i', _, _, hcu, _, _, _⟩ := checker_guard fg d hok p ad sig t hd hf ht
+  obtain ⟨S, _⟩ := supported_setup g aux fg hwf hsup hfg
+  obtain ⟨a, ha, hta⟩ := S.app_inv i _ hnode
+  obtain ⟨fn', args', kwargs', deps', o, rfl, hfn, hargs', hkwargs'⟩ := toGApp_call_inv a fn args kwargs deps out hta.symm
+  have himem : i ∈ (appsOf comp.order).filter (callsInput fg t) := by rw [hfilt]; simp
+  obtain ⟨hisched, hicalls⟩ := List.mem_filter.1 himem
+  have hivis : Visit.app i ∈ comp.order := (mem_appsOf _ i).1 hisched
+  have hii : i = i' := by
+    have := callsInput_mem_classUsers fg t i hicalls
+    rw [hcu] at this
+    simpa using this
+  subst hii
+  have htin : t ∈ fg.inputs := List.mem_of_getElem? ht
+  -- the function operand is a tracer in the class of `t`
+  obtain ⟨f0, hf0, hroot⟩ : ∃ f0, fn = .ref f0 ∧ root fg f0 = t := by
+    simp only [callsInput, hnode] at hicalls
+    cases hfnv : fn with
+    | ref f => rw [hfnv] at hicalls; exact ⟨f, rfl, by simpa using hicalls⟩
+    | _ => rw [hfnv] at hicalls; simp at hicalls
+  have hfn' : fn' = .var f0 := toV_ref_inv fn' f0 (by rw [← hfn, hf0])
+  subst hfn'
+  have hnot : isAllowInline g (.var f0) = false :=
+    not_allowInline_of_callsInput g aux fg hfg hfwf t htin (.var f0) f0 (by simp [toV]) hroot
+  obtain ⟨_, _, ho, _, _⟩ := compile_parts cfg fc g comp hc
+  obtain ⟨rr, hr, htr, _⟩ := compile_correct_wf cfg fc g comp hwf hc
+  have T := track_input g aux fg hwf hsup hfg hfwf hstable hplain t htin i hcu fn args kwargs deps out hnode
+  obtain ⟨f, as, ks, hfl, hqf, hlen, hnames⟩ := tracked_call_once (isInAtom_qok t) T cfg.unaryParens comp.order rr hr
+    (visitOrder_nodup g hwf comp.order ho) (fun k' hk' => visitOrder_enters g aux fg hwf hsup hfg comp.order ho k' hk')
+    i f0 args' kwargs' deps' o ha hroot hnot hivis (by
+      intro v hv ⟨j, y, args2, kwargs2, deps2, out2, hvj, hj, hy⟩
+      subst hvj
+      have hfa := S.app j _ hj
+      have hcj : callsInput fg t j = true := by
+        simp [callsInput, hfa, toGApp, toNode, toV, hy]
+      have : j ∈ (appsOf comp.order).filter (callsInput fg t) := List.mem_filter.2 ⟨(mem_appsOf _ j).2 hv, hcj⟩
+      rw [hfilt] at this
+      simp only [List.mem_singleton] at this
+      rw [this])
+  rw [isInAtom_iff] at hqf
+  subst hqf
+  refine ⟨as, ks, by rw [← htr]; exact hfl, ?_, ?_⟩
+  · have : args.length = 1 := by
+      have := congrArg List.length hargs
+      simpa using this
+    rw [hlen, ← this, hargs', List.length_map]
+  · rw [hnames]
+    have h1 : kwargs.map (·.1) = kwargs'.map (·.1) := by rw [hkwargs']; simp [List.map_map, Function.comp_def]
+    rw [h1] at hkw
+    have := congrArg (List.map some) hkw
+    simpa [List.map_map, Function.comp_def] using this
+
 /-! ## Non-vacuity -/
 
 /-- The graph of `Props/C13.lean:realGraph` (`einx.add("a b, b -> a b", np.zeros((2, 3)), f)` with `def f(shape, name=None)`)
@@ -202,6 +276,18 @@ example : (match compile fixedCfg ⟨true, true, true⟩ realCGraph, toFactory r
       some (((taggedTrace { env := unbound } (sstmts c.st)).filter (byCallerOf fg 1)).map
         (fun p => (p.1, (callShape p.2).map (fun s => (s.2.1.length, s.2.2)))))
     | _, _ => none) = some [(some 4, some (1, ["name"]))] := by decide +kernel
+
+/-- Value level on the captured graph: the further premises hold, and the compiled program has exactly one call event whose
+function is the object of input 1: `in1((3,), name="add")`. -/
+example : (match toFactory realCGraph realAux with
+    | some fg => rootStable fg && castsPlain realCGraph
+    | none => false) = true := by decide +kernel
+
+example : (match compile fixedCfg ⟨true, true, true⟩ realCGraph with
+    | .ok c =>
+      ((execBlock { env := unbound } c.st.program).trace.filter (trackedCall (isInAtom 1))).map
+        (fun ev => (callShape ev).map (fun s => (decide (s.1 = inAtom 1), s.2.1.length, s.2.2)))
+    | _ => []) = [some (true, 1, ["name"])] := by decide +kernel
 
 /-- `Supported` is not vacuous either way: an application that consumes a nested graph is outside the node language. -/
 example : Supported { apps := [.call (.lit "f") [.gref 1] [] [] 0], origin := [some 0],
